@@ -58,15 +58,18 @@ type Target struct {
 	FailIf   string `json:"fail_if,omitempty"`
 	SleepMs  int    `json:"sleep_ms,omitempty"`
 	// SleepAfterMs: the command keeps running for this long after it has written its outputs
-	SleepAfterMs int    `json:"sleep_after_ms,omitempty"`
-	TrapTerm     bool   `json:"trap_term,omitempty"` // the target's shell ignores SIGTERM
-	SleepIf      string `json:"sleep_if,omitempty"`  // marker: sleep 20 s when present
-	Omit         string `json:"omit,omitempty"`
-	OmitIf       string `json:"omit_if,omitempty"` // marker: do not write outputs when present
-	Touch        string `json:"touch,omitempty"`   // marker created by the command (establishes a checked condition)
-	Untouch      string `json:"untouch,omitempty"` // marker removed by the command while UntouchIf is present (the command itself breaks a checked condition)
-	UntouchIf    string `json:"untouch_if,omitempty"`
-	RawCmd       string `json:"raw_cmd,omitempty"` // if set, used verbatim as the command
+	SleepAfterMs int  `json:"sleep_after_ms,omitempty"`
+	TrapTerm     bool `json:"trap_term,omitempty"` // the target's shell ignores SIGTERM
+	// TrapExit0: the target's shell answers SIGTERM with a clean `exit 0` (a server that shuts
+	// down gracefully): an overrun timeout must still be a failure
+	TrapExit0 bool   `json:"trap_exit0,omitempty"`
+	SleepIf   string `json:"sleep_if,omitempty"` // marker: sleep 20 s when present
+	Omit      string `json:"omit,omitempty"`
+	OmitIf    string `json:"omit_if,omitempty"` // marker: do not write outputs when present
+	Touch     string `json:"touch,omitempty"`   // marker created by the command (establishes a checked condition)
+	Untouch   string `json:"untouch,omitempty"` // marker removed by the command while UntouchIf is present (the command itself breaks a checked condition)
+	UntouchIf string `json:"untouch_if,omitempty"`
+	RawCmd    string `json:"raw_cmd,omitempty"` // if set, used verbatim as the command
 	// Shape: how the command line is written. "" = the plain helper invocation; "and" = `helper
 	// ... && true` (a failing helper is the non-final member of an AND list: `set -e` does not
 	// fire, the script simply ends with the helper's status); "nosete" = `set +e; helper ...`
@@ -180,6 +183,9 @@ func (t *Target) Command() string {
 	var sb strings.Builder
 	if t.TrapTerm {
 		sb.WriteString("trap '' TERM; ")
+	}
+	if t.TrapExit0 {
+		sb.WriteString("trap 'exit 0' TERM; ")
 	}
 	sb.WriteString(`"$VCTL" act ` + shq(t.Label()) + " --salt " + shq(t.Salt))
 	if t.FailExit != 0 {
